@@ -104,9 +104,12 @@ def getXSTypeLabelFromNumber(xsTypeNumber: int) -> str:
     2-digit labels are supported when there is only one burnup group.
     """
     try:
-        if xsTypeNumber > ord("Z"):
-            # two digit. Parse
-            return chr(int(str(xsTypeNumber)[:2])) + chr(int(str(xsTypeNumber)[2:]))
+        if xsTypeNumber > ord("z"):
+            # two characters. A character code has three digits exactly when it starts with 1
+            # ('d'..'z' are 100..122, 'A'..'c' are 65..99)
+            digits = str(xsTypeNumber)
+            split = 3 if digits[0] == "1" else 2
+            return chr(int(digits[:split])) + chr(int(digits[split:]))
         elif xsTypeNumber < ord("A"):
             raise ValueError(
                 f"Cannot convert invalid xsTypeNumber `{xsTypeNumber}` to char. "
